@@ -155,6 +155,8 @@ var c03HostMatchers = []rconfig.HostMatcher{
 	{Type: "regex", Value: `^.*\.example\.(com|org)$`},
 	{Type: "regex", Value: `^10\.0\.0\.\d+$`},
 	{Type: "regex", Value: `^example\.org$`},
+	{Type: "regex", Value: `example\.com$`}, // unanchored at the start, beginning with literal characters
+	{Type: "regex", Value: `\.example\.`},   // unanchored on both sides
 }
 
 // decoded segment values for single wildcards
@@ -305,8 +307,14 @@ func (g *gen) c03Route(prefix string) c03Route {
 					rt.capPool[s.Name] = []string{"v1", "1234", "k=v"}
 				}
 			case 2:
-				rt.Params = append(rt.Params, rconfig.ParameterMatcher{Name: s.Name, Type: "regex", Value: `^[a-z0-9 ]+$`})
-				rt.capPool[s.Name] = []string{"v1", "a b", "1234"}
+				if rng.IntN(3) == 0 {
+					// not anchored at the start and beginning with literal characters: the match may begin anywhere in the value
+					rt.Params = append(rt.Params, rconfig.ParameterMatcher{Name: s.Name, Type: "regex", Value: `report-[0-9]+\.pdf$`})
+					rt.capPool[s.Name] = []string{"annual-report-2024.pdf", "report-1.pdf", "x report-22.pdf"}
+				} else {
+					rt.Params = append(rt.Params, rconfig.ParameterMatcher{Name: s.Name, Type: "regex", Value: `^[a-z0-9 ]+$`})
+					rt.capPool[s.Name] = []string{"v1", "a b", "1234"}
+				}
 			}
 		} else {
 			switch rng.IntN(3) {
